@@ -76,6 +76,41 @@ KTop(n, kind) == IF n = 0 THEN 0 ELSE IF kind = "bd" THEN 2 * (n - 1) ELSE n - 1
 (* k-core for k = 0..KTop                                                       *)
 CorenessFrom(cores, v) == MaxOf({k \in 0..(Len(cores) - 1) : v \in cores[k + 1]})
 
+(* ---- two-level weights (near-threshold inputs of score_wu) ------------------ *)
+(* A weight is the pair (A[i][j], E[i][j]) standing for the real number         *)
+(* A[i][j]*G + E[i][j] in some unit, a bound is the pair (b2, e2) standing for  *)
+(* (b2*G + e2)/2, where G is a (huge, never materialised) radix: the harness    *)
+(* uses G = 2^gap, gap >= 21, i.e. E perturbs a weight by 1e-7 .. 1 ulp         *)
+(* relative.  As long as 2*(sum of |E| over a column) + |e2| < G (TwoLevelOk     *)
+(* demands it for G = 2^20 already) the comparison "strength >= s" is decided   *)
+(* lexicographically and exactly on 32-bit integers:                            *)
+(*    2*(dA*G + dE) >= b2*G + e2  <=>  (2*dA - b2)*G >= e2 - 2*dE               *)
+(*                                <=>  2*dA > b2 \/ (2*dA = b2 /\ 2*dE >= e2).  *)
+(* MC_KCoreLex checks, for every small instance, that these definitions agree   *)
+(* with CoreSet on the materialised weights A*R + E for a small radix R.        *)
+ECap == 1048576                                                       \* 2^20
+TwoLevelOk(n, E, e2) ==
+  \A i \in 1..n : 2 * Sum(1..n, LAMBDA j : Abs(E[j][i])) + Abs(e2) < ECap
+(* a weight is positive / zero (the pair is compared with (0,0))                *)
+PosX(a, e) == a > 0 \/ (a = 0 /\ e > 0)
+ZeroX(a, e) == a = 0 /\ e = 0
+MeetsX(dA, dE, b2, e2) == 2 * dA > b2 \/ (2 * dA = b2 /\ 2 * dE >= e2)
+DegInX(n, A, E, S, i) == <<Sum(S, LAMBDA j : A[j][i]), Sum(S, LAMBDA j : E[j][i])>>
+GoodSetX(n, A, E, S, b2, e2) ==
+  \A i \in S : LET d == DegInX(n, A, E, S, i) IN MeetsX(d[1], d[2], b2, e2)
+GoodSetsX(n, A, E, b2, e2) ==
+  {S : S \in {T \in SUBSET (1..n) : GoodSetX(n, A, E, T, b2, e2)}}
+(* L0, as CoreSet: the good set that contains every good set                    *)
+CoreSetX(n, A, E, b2, e2) ==
+  LET G == GoodSetsX(n, A, E, b2, e2)
+      U == {i \in 1..n : \E S \in G : i \in S}
+  IN CHOOSE S \in {U} : GoodSetX(n, A, E, S, b2, e2) /\ \A T \in G : T \subseteq S
+RECURSIVE PeelSetX(_, _, _, _, _, _)
+PeelSetX(n, A, E, S, b2, e2) ==
+  LET bad == {i \in S : LET d == DegInX(n, A, E, S, i) IN ~MeetsX(d[1], d[2], b2, e2)}
+  IN IF bad = {} THEN S ELSE PeelSetX(n, A, E, S \ bad, b2, e2)
+PeelCoreSetX(n, A, E, b2, e2) == PeelSetX(n, A, E, 1..n, b2, e2)
+
 (* ---- property-level predicates on observed outputs ------------------------- *)
 (* "return the input restricted to the largest node set ..., all other rows    *)
 (* and columns zeroed"                                                         *)
